@@ -25,6 +25,17 @@ ITEMS = [
     dict(src=B, path='struct BudgetEnforcer'),
     dict(src=B, path='enum ContainerState', derive='#[derive(Clone, Copy)]'),
 
+    # a fresh enforcer counts from zero, under the limits and the policy it was given (C07; the constructor the event source calls)
+    dict(src=B, path='impl BudgetEnforcer/fn new', props=['C07', 'C09'],
+         rewrites=[(r'BudgetReport::default\(\)', 'budget_report_default()', 1, 'R8'),
+                   (r'FastHashSet::with_capacity\(256\)', 'anchor_set_with_capacity(256)', 1, 'R8'),
+                   (r'SmallVec::new\(\)', 'Vec::new()', 1, 'R6')],
+         ensures=[('C07:a_new_enforcer_has_counted_nothing', '''r.abs().events == 0 && r.abs().aliases == 0 && r.abs().nodes == 0 && r.abs().scalar_bytes == 0 && r.abs().merge_keys == 0
+                    && r.abs().documents == 0 && r.abs().max_depth == 0 && r.abs().anchors =~= Set::<usize>::empty() && r.abs().stack =~= Seq::<Ctx>::empty()
+                    && r.report.breached is None'''),
+                  ('C07:a_new_enforcer_holds_the_limits_and_the_policy_it_was_given', 'r.budget == budget && r.policy == policy'),
+                  ('state_is_consistent', 'r.inv() && r.room() && r.depth == 0')],
+         canaries=['C07:a_new_enforcer_has_counted_nothing']),
     dict(src=B, path='impl BudgetReport/fn reset', props=['C07', 'C11'],
          ensures=[('all_counters_zero', '''*final(self) == (BudgetReport {
                 breached: old(self).breached, documents: old(self).documents,
